@@ -1,0 +1,214 @@
+//go:build verif
+
+package rueidis
+
+// Verification hooks (build tag `verif` only) for connection setup (C47), the
+// Pub/Sub subscription table and push dispatch (C26/C27) and dedicated clients
+// (C25). Nothing here changes the behaviour of the package.
+
+import (
+	"context"
+	"fmt"
+	"net"
+	"strings"
+	"sync"
+	"time"
+
+	"github.com/redis/rueidis/internal/cmds"
+)
+
+// ---- C47: the real pipe constructor
+
+// VerifPipe wraps a real *pipe.
+type VerifPipe struct{ p *pipe }
+
+// VerifNewPipe runs the real _newPipe (r2ps selects the RESP2 Pub/Sub helper variant).
+func VerifNewPipe(ctx context.Context, connFn func(context.Context) (net.Conn, error), option *ClientOption, r2ps bool) (*VerifPipe, error) {
+	p, err := _newPipe(ctx, connFn, option, r2ps, false)
+	if err != nil {
+		return nil, err
+	}
+	return &VerifPipe{p}, nil
+}
+
+func (v *VerifPipe) Do(ctx context.Context, cmd Completed) RedisResult { return v.p.Do(ctx, cmd) }
+func (v *VerifPipe) DoMulti(ctx context.Context, multi ...Completed) []RedisResult {
+	return append([]RedisResult(nil), v.p.DoMulti(ctx, multi...).s...)
+}
+func (v *VerifPipe) Receive(ctx context.Context, subscribe Completed, fn func(PubSubMessage)) error {
+	return v.p.Receive(ctx, subscribe, fn)
+}
+func (v *VerifPipe) SetPubSubHooks(h PubSubHooks) <-chan error { return v.p.SetPubSubHooks(h) }
+func (v *VerifPipe) CleanSubscriptions()                       { v.p.CleanSubscriptions() }
+func (v *VerifPipe) Close()                                    { v.p.Close() }
+func (v *VerifPipe) Error() error                              { return v.p.Error() }
+func (v *VerifPipe) Version() int                              { return v.p.Version() }
+
+// IsRESP2 reports whether the pipe ended in the RESP2 branch (it owns a RESP2 Pub/Sub helper or is one).
+func (v *VerifPipe) IsRESP2() bool { return v.p.r2p != nil || v.p.r2ps }
+
+// VerifSentinelOpt is the real newSentinelOpt.
+func VerifSentinelOpt(o ClientOption) ClientOption { return *newSentinelOpt(&o) }
+
+// ---- C26/C27: the subscription table and the push dispatcher
+
+// VerifSubs wraps a real *subs.
+type VerifSubs struct{ s *subs }
+
+func VerifNewSubs() *VerifSubs { return &VerifSubs{newSubs()} }
+func (v *VerifSubs) Subscribe(channels []string, fn func(PubSubSubscription)) (chan PubSubMessage, func()) {
+	return v.s.Subscribe(channels, fn)
+}
+func (v *VerifSubs) Publish(channel string, m PubSubMessage) { v.s.Publish(channel, m) }
+func (v *VerifSubs) Confirm(s PubSubSubscription)            { v.s.Confirm(s) }
+func (v *VerifSubs) Unsubscribe(s PubSubSubscription)        { v.s.Unsubscribe(s) }
+func (v *VerifSubs) Close()                                  { v.s.Close() }
+
+// VerifBarePipe is a pipe without connection or background goroutines: only the
+// subscription tables and the hook slots exist, which is all handlePush touches.
+func VerifBarePipe(onInvalidations func([]RedisMessage)) *VerifPipe {
+	p := &pipe{nsubs: newSubs(), psubs: newSubs(), ssubs: newSubs(), onInvalidations: onInvalidations}
+	p.pshks.Store(emptypshks)
+	p.clhks.Store(emptyclhks)
+	return &VerifPipe{p}
+}
+
+// Subs returns the table for kind 0 (channels), 1 (patterns) or 2 (shard channels).
+func (v *VerifPipe) Subs(kind int) *VerifSubs {
+	return &VerifSubs{[]*subs{v.p.nsubs, v.p.psubs, v.p.ssubs}[kind]}
+}
+
+// HandlePush is the real handlePush.
+func (v *VerifPipe) HandlePush(values []RedisMessage) (reply, unsubscribe bool) {
+	return v.p.handlePush(values)
+}
+
+// VerifHooksWithInvalidations returns h with the unexported invalidation hook set.
+func VerifHooksWithInvalidations(h PubSubHooks, fn func([]RedisMessage)) PubSubHooks {
+	h.onInvalidations = fn
+	return h
+}
+
+// ---- C25: dedicated clients over a logging wire, through the real mux and pool
+
+// VerifLogWire is a wire that records every call made on it.
+type VerifLogWire struct {
+	rig   *VerifDedicatedRig
+	id    int
+	hooks PubSubHooks
+	err   error
+}
+
+func (w *VerifLogWire) log(format string, a ...any) {
+	w.rig.log = append(w.rig.log, fmt.Sprintf("w%d ", w.id)+fmt.Sprintf(format, a...))
+}
+
+func words(c Completed) string { return strings.Join(c.Commands(), "_") }
+
+func (w *VerifLogWire) Do(ctx context.Context, cmd Completed) RedisResult {
+	w.rig.mu.Lock()
+	defer w.rig.mu.Unlock()
+	w.log("do %s", words(cmd))
+	return NewResult(strmsg('+', "OK"), nil)
+}
+func (w *VerifLogWire) DoMulti(ctx context.Context, multi ...Completed) *redisresults {
+	w.rig.mu.Lock()
+	defer w.rig.mu.Unlock()
+	ws := make([]string, len(multi))
+	res := make([]RedisResult, len(multi))
+	for i, c := range multi {
+		ws[i] = words(c)
+		res[i] = NewResult(strmsg('+', "OK"), nil)
+	}
+	w.log("multi %s", strings.Join(ws, ","))
+	return &redisresults{s: res}
+}
+func (w *VerifLogWire) Receive(ctx context.Context, subscribe Completed, fn func(PubSubMessage)) error {
+	w.rig.mu.Lock()
+	defer w.rig.mu.Unlock()
+	w.log("receive %s", words(subscribe))
+	return nil
+}
+func (w *VerifLogWire) DoCache(context.Context, Cacheable, time.Duration) RedisResult {
+	return RedisResult{}
+}
+func (w *VerifLogWire) DoMultiCache(context.Context, ...CacheableTTL) *redisresults { return nil }
+func (w *VerifLogWire) DoStream(context.Context, *pool, Completed) RedisResultStream {
+	return RedisResultStream{}
+}
+func (w *VerifLogWire) DoMultiStream(context.Context, *pool, ...Completed) MultiRedisResultStream {
+	return MultiRedisResultStream{}
+}
+func (w *VerifLogWire) Info() map[string]RedisMessage { return nil }
+func (w *VerifLogWire) Version() int                  { return 7 }
+func (w *VerifLogWire) AZ() string                    { return "" }
+func (w *VerifLogWire) Error() error {
+	w.rig.mu.Lock()
+	defer w.rig.mu.Unlock()
+	return w.err
+}
+func (w *VerifLogWire) Close() {
+	w.rig.mu.Lock()
+	defer w.rig.mu.Unlock()
+	w.log("close")
+	if w.err == nil {
+		w.err = ErrClosing
+	}
+}
+func (w *VerifLogWire) CleanSubscriptions() {
+	w.rig.mu.Lock()
+	defer w.rig.mu.Unlock()
+	w.log("clean")
+}
+func (w *VerifLogWire) SetPubSubHooks(h PubSubHooks) <-chan error {
+	w.rig.mu.Lock()
+	defer w.rig.mu.Unlock()
+	w.log("sethooks msg=%v sub=%v inv=%v", h.OnMessage != nil, h.OnSubscription != nil, h.onInvalidations != nil)
+	w.hooks = h
+	if h.isZero() {
+		return nil
+	}
+	return make(chan error, 1)
+}
+func (w *VerifLogWire) GetPubSubHooks() PubSubHooks {
+	w.rig.mu.Lock()
+	defer w.rig.mu.Unlock()
+	return w.hooks
+}
+func (w *VerifLogWire) SetOnCloseHook(func(error)) {}
+func (w *VerifLogWire) StopTimer() bool            { return true }
+func (w *VerifLogWire) ResetTimer() bool           { return true }
+
+var _ wire = (*VerifLogWire)(nil)
+
+// VerifDedicatedRig is a real singleClient over a real mux whose wires are VerifLogWires.
+type VerifDedicatedRig struct {
+	mu    sync.Mutex
+	log   []string
+	wires int
+	c     *singleClient
+}
+
+func VerifNewDedicatedRig() *VerifDedicatedRig {
+	r := &VerifDedicatedRig{}
+	mk := func(context.Context) wire {
+		r.mu.Lock()
+		defer r.mu.Unlock()
+		r.wires++
+		return &VerifLogWire{rig: r, id: r.wires}
+	}
+	m := newMux("verif", &ClientOption{}, (*pipe)(nil), deadFn(), mk, mk)
+	r.c = newSingleClientWithConn(m, cmds.NewBuilder(cmds.NoSlot), false, true, nil, false)
+	return r
+}
+
+func (r *VerifDedicatedRig) Client() Client { return r.c }
+
+// Log returns and clears the call log ("w<id> <call>").
+func (r *VerifDedicatedRig) Log() []string {
+	r.mu.Lock()
+	defer r.mu.Unlock()
+	l := r.log
+	r.log = nil
+	return l
+}
